@@ -8,6 +8,7 @@ package main
 
 import (
 	"context"
+	"crypto/ed25519"
 	"encoding/json"
 	"errors"
 	"fmt"
@@ -62,11 +63,11 @@ type mjCase struct {
 }
 
 type mjQuerier struct {
-	c     mjCase
-	pdus  map[string]gmsl.PDU
-	jr    gmsl.PDU
-	pl    gmsl.PDU
-	auth  []gmsl.PDU
+	c    mjCase
+	pdus map[string]gmsl.PDU
+	jr   gmsl.PDU
+	pl   gmsl.PDU
+	auth []gmsl.PDU
 }
 
 func (q *mjQuerier) CurrentStateEvent(ctx context.Context, roomID spec.RoomID, t, sk string) (gmsl.PDU, error) {
@@ -270,16 +271,16 @@ func runMakeJoin(r *harness.Run, c mjCase) (bool, error) {
 // ---------------------------------------------------------------- send_join
 
 type sjCase struct {
-	Version       string
-	Membership    string // join | leave | invite
-	StateKey      string // sender | other | empty | absent
-	RoomMatches   bool
+	Version        string
+	Membership     string // join | leave | invite
+	StateKey       string // sender | other | empty | absent
+	RoomMatches    bool
 	EventIDMatches bool
-	OriginMatches bool
-	Signature     string // valid | absent | other-key
-	Current       string // "" | join | ban | leave | invite
-	Via           string // "" | local | remote | malformed
-	QuerierError  bool
+	OriginMatches  bool
+	Signature      string // valid | absent | other-key
+	Current        string // "" | join | ban | leave | invite
+	Via            string // "" | local | remote | malformed
+	QuerierError   bool
 }
 
 type memQ struct {
@@ -576,6 +577,109 @@ func stripSig(js []byte, server string) []byte {
 	return evgen.WithSignatures(js, m)
 }
 
+// ---------------------------------------------------------------- invite v3 (pseudo-ID rooms)
+
+type inv3Case struct {
+	RoomMatches bool
+	SenderIDErr bool
+	Known       bool
+	Current     string // "" | join | leave | invite
+	Stripped    string // given | empty-state-from-querier | state-from-querier
+	RoomQErr    bool
+	Kind        string // invite | join | topic (what the proto event is)
+}
+
+func runInviteV3(r *harness.Run, c inv3Case) (bool, error) {
+	r.Eval()
+	const version = "org.matrix.msc4014"
+	h, st := srgen.New("10", 0, 0) // only used for a join-rules event to strip
+	room := "!room:b.org"
+	reqRoom := room
+	if !c.RoomMatches {
+		reqRoom = "!elsewhere:b.org"
+	}
+	key := evgen.NewKey("pseudo", "ed25519:1", 77)
+	senderID := spec.SenderIDFromPseudoIDKey(key.Priv)
+	inviter := spec.SenderIDFromPseudoIDKey(evgen.NewKey("pseudo", "ed25519:1", 78).Priv)
+	sk := "placeholder"
+	proto := gmsl.ProtoEvent{SenderID: string(inviter), RoomID: room, Type: "m.room.member", StateKey: &sk, PrevEvents: []string{"$p" + strings.Repeat("x", 42)}, AuthEvents: []string{}, Depth: 4, Content: spec.RawJSON(`{"membership":"invite"}`)}
+	switch c.Kind {
+	case "join":
+		proto.Content = spec.RawJSON(`{"membership":"join"}`)
+	case "topic":
+		proto.Type, proto.Content = "m.room.topic", spec.RawJSON(`{"topic":"x"}`)
+	}
+	rid, _ := spec.NewRoomID(reqRoom)
+	iu, _ := spec.NewUserID("@newuser:"+local, true)
+	var sq stateQ
+	var stripped []gmsl.InviteStrippedState
+	switch c.Stripped {
+	case "given":
+		p, _ := h.PDU(st["m.room.join_rules\x00"])
+		stripped = []gmsl.InviteStrippedState{gmsl.NewInviteStrippedState(p)}
+	case "state-from-querier":
+		p, _ := h.PDU(st["m.room.join_rules\x00"])
+		sq.events = []gmsl.PDU{p}
+	}
+	in := gmsl.HandleInviteV3Input{HandleInviteInput: gmsl.HandleInviteInput{RoomID: *rid, RoomVersion: version, InvitedUser: *iu, InvitedSenderID: senderID, StrippedState: stripped,
+		KeyID: gmsl.KeyID(localKey.KeyID), PrivateKey: localKey.Priv, Verifier: fedgen.Verifier{}, RoomQuerier: roomQ{c.Known, c.RoomQErr}, MembershipQuerier: memQ{m: c.Current, who: string(senderID)}, StateQuerier: sq, UserIDQuerier: fedgen.UID},
+		InviteProtoEvent: proto,
+		GetOrCreateSenderID: func(ctx context.Context, u spec.UserID, rm spec.RoomID, v string) (spec.SenderID, ed25519.PrivateKey, error) {
+			if c.SenderIDErr {
+				return "", nil, errors.New("scripted")
+			}
+			return senderID, key.Priv, nil
+		}}
+	var out gmsl.PDU
+	var herr error
+	if p, msg := harness.Try(func() { out, herr = gmsl.HandleInviteV3(context.Background(), in) }); p {
+		return false, fmt.Errorf("HandleInviteV3 panics: %s", msg)
+	}
+	if herr != nil || out == nil {
+		r.Outcome("invite_v3-refused")
+		return false, nil
+	}
+	r.Outcome("invite_v3-accepted")
+	var why []string
+	if c.Kind != "invite" {
+		why = append(why, "the proto event is not an invite ("+c.Kind+")")
+	}
+	if !c.RoomMatches {
+		why = append(why, "room ID differs from the request")
+	}
+	if c.SenderIDErr {
+		why = append(why, "no sender ID could be created")
+	}
+	if c.Known && c.Current == "join" {
+		why = append(why, "the invited user is already joined")
+	}
+	if c.RoomQErr {
+		why = append(why, "room lookup failed")
+	}
+	if out.StateKey() == nil || *out.StateKey() != string(senderID) {
+		why = append(why, "the returned event is not addressed to the invited user's sender ID")
+	}
+	if out.Type() != proto.Type || string(out.SenderID()) != string(inviter) || out.RoomID().String() != room {
+		why = append(why, "the returned event differs from the proto event")
+	}
+	// signed by the invited user's room key over the unmodified event
+	if err := gmsl.VerifyJSON(string(senderID), "ed25519:1", key.Pub, redactedOf(version, out.JSON())); err != nil {
+		why = append(why, "no valid signature of the invited user's room key: "+err.Error())
+	}
+	if len(why) > 0 {
+		return true, fmt.Errorf("HandleInviteV3 accepted although %s (%+v)", strings.Join(why, "; "), c)
+	}
+	return true, nil
+}
+
+func redactedOf(version string, js []byte) []byte {
+	b, err := gmsl.MustGetRoomVersion(gmsl.RoomVersion(version)).RedactEventJSON(js)
+	if err != nil {
+		return js
+	}
+	return b
+}
+
 // ---------------------------------------------------------------- make_leave
 
 type mlCase struct {
@@ -679,7 +783,7 @@ type mjResp struct {
 	ver gmsl.RoomVersion
 }
 
-func (m mjResp) GetJoinEvent() gmsl.ProtoEvent   { return m.pe }
+func (m mjResp) GetJoinEvent() gmsl.ProtoEvent    { return m.pe }
 func (m mjResp) GetRoomVersion() gmsl.RoomVersion { return m.ver }
 
 type sjResp struct {
@@ -828,7 +932,7 @@ func (staticDB) StoreKeys(context.Context, map[gmsl.PublicKeyLookupRequest]gmsl.
 	return nil
 }
 
-func canon(v interface{ }) []byte { return evgen.CanonOf(v) }
+func canon(v interface{}) []byte { return evgen.CanonOf(v) }
 
 func main() { harness.Main("C15", "fault_enumeration", run) }
 
@@ -854,6 +958,10 @@ func run(r *harness.Run) {
 			var c invCase
 			_ = json.Unmarshal(raw, &c)
 			_, err = runInvite(r, c)
+		case "invite_v3":
+			var c inv3Case
+			_ = json.Unmarshal(raw, &c)
+			_, err = runInviteV3(r, c)
 		case "perform_join":
 			var c pjCase
 			_ = json.Unmarshal(raw, &c)
@@ -861,7 +969,7 @@ func run(r *harness.Run) {
 		}
 		return err
 	}
-	for _, k := range []string{"make_join", "make_leave", "send_join", "invite", "perform_join"} {
+	for _, k := range []string{"make_join", "make_leave", "send_join", "invite", "invite_v3", "perform_join"} {
 		k := k
 		r.OnReplay(k, func(raw json.RawMessage) error { return replay(k, raw) })
 	}
@@ -1002,6 +1110,36 @@ func run(r *harness.Run) {
 			r.Violation(fmt.Sprintf("invite/%s/%s:%s", what, inv[i].Kind, harness.J(inv[i])), err.Error(), "invite", inv[i])
 		}
 	})
+	var inv3 []inv3Case
+	var acc3 atomic.Int64
+	for _, rm := range bools {
+		for _, se := range bools {
+			for _, kn := range bools {
+				for _, cur := range []string{"", "join", "leave", "invite"} {
+					for _, sp := range []string{"given", "empty-state-from-querier", "state-from-querier"} {
+						for _, qe := range bools {
+							for _, k := range []string{"invite", "join", "topic"} {
+								inv3 = append(inv3, inv3Case{rm, se, kn, cur, sp, qe, k})
+							}
+						}
+					}
+				}
+			}
+		}
+	}
+	r.Parallel(len(inv3), func(i int) {
+		acc, err := runInviteV3(r, inv3[i])
+		if acc {
+			acc3.Add(1)
+			r.Nontrivial("inv3" + harness.J(inv3[i]))
+		}
+		if err != nil {
+			r.Violation(fmt.Sprintf("invite_v3/%s:%s", inv3[i].Kind, harness.J(inv3[i])), err.Error(), "invite_v3", inv3[i])
+		}
+	})
+	r.Count("accepted_invite_v3", acc3.Load())
+	r.Count("cells_invite_v3", int64(len(inv3)))
+	r.Vacuous(acc3.Load() == 0 && r.ViolationCount() == 0, "invite_v3 accepted nothing: the product never reaches the accepting path")
 	var pj []pjCase
 	for _, v := range vers {
 		for _, m := range []string{"ok", "error", "unknown-version"} {
